@@ -158,21 +158,21 @@ FS = ("", "i")                    # sliced_wasserstein projects with float32 dir
 
 
 @ep("bottleneck", F3)
-def _(P, v): return persim.bottleneck(V(P, "D1", v), V(P, "D2", v))
+def _(P, v): return persim.bottleneck(V(P, "D1", v, F3), V(P, "D2", v, F3))
 @ep("bottleneck+matching", F3)
 def _(P, v):
-    d, m = persim.bottleneck(V(P, "D1", v), V(P, "D2", v), matching=True)
+    d, m = persim.bottleneck(V(P, "D1", v, F3), V(P, "D2", v, F3), matching=True)
     return [d, np.sort(np.asarray(m)[:, 2])]
 @ep("bottleneck inf", F3)
-def _(P, v): return persim.bottleneck(P["Dinf"], V(P, "D2", v))
+def _(P, v): return persim.bottleneck(P["Dinf"], V(P, "D2", v, F3))
 @ep("wasserstein", F3)
-def _(P, v): return persim.wasserstein(V(P, "D1", v), V(P, "D2", v))
+def _(P, v): return persim.wasserstein(V(P, "D1", v, F3), V(P, "D2", v, F3))
 @ep("wasserstein+matching", F3)
 def _(P, v):
-    d, m = persim.wasserstein(V(P, "D1", v), V(P, "D2", v), matching=True)
+    d, m = persim.wasserstein(V(P, "D1", v, F3), V(P, "D2", v, F3), matching=True)
     return d
 @ep("heat", F3)
-def _(P, v): return persim.heat(V(P, "D1", v), V(P, "D2", v), sigma=0.5)
+def _(P, v): return persim.heat(V(P, "D1", v, F3), V(P, "D2", v, F3), sigma=0.5)
 @ep("sliced M=10", FS)
 def _(P, v): return persim.sliced_wasserstein(V(P, "D1", v, FS), V(P, "D2", v, FS), M=10)
 @ep("sliced M=40", FS)
